@@ -447,11 +447,14 @@ class VarsManager(object):
         :param func: String. Users can provide a string to describe the transforming function. For details, refer to class **tf_pwa.variable.Bound**.
         :param overwrite: Boolean. If it's ``True``, the program will not throw a warning when overwrite a variable with the same name.
         """
-        for name in bound_dic:
+        for name_i in bound_dic:
+            # tied names are one variable: its bound is kept under the name
+            # the fit uses (the first entry of the same_list group)
+            name = self.bound_name(name_i)
             if name in self.bnd_dic:
                 if not overwrite:
                     warnings.warn("Overwrite bound of {}!".format(name))
-            self.bnd_dic[name] = Bound(*bound_dic[name], func=func)
+            self.bnd_dic[name] = Bound(*bound_dic[name_i], func=func)
             if name in self.variables:
                 has_same = False
                 for i in self.same_list:
@@ -462,6 +465,15 @@ class VarsManager(object):
                     continue
                 # val = self.get(name).numpy()
                 # self.set(name, self.bnd_dic[name].get_y2x(val))
+
+    def bound_name(self, name):
+        """
+        The name under which the bound of a variable is registered: for a member of a ``set_same`` group the first entry of the group (the only member that can be in ``trainable_vars``), else the name itself.
+        """
+        for i in self.same_list:
+            if name in i:
+                return i[0]
+        return name
 
     def _remove_bound(self, name):
         if name in self.variables:
@@ -1681,7 +1693,7 @@ class Variable(object):
         """
         if not self.shape:
             self.vm.set_bound({self.name: bound}, func, overwrite=overwrite)
-            self.bound = self.vm.bnd_dic[self.name]
+            self.bound = self.vm.bnd_dic[self.vm.bound_name(self.name)]
         else:
             raise Exception(
                 "Only shape==() real var supports 'set_bound' method."
